@@ -108,6 +108,7 @@ pub fn rich_dump(r: &mut Rng, prop: &str, seed: u64, profile: &str, benign_fault
         exe_name: "/usr/bin/app",
         alt_chain: false,
         names_at_end: false,
+        lib_gaps: false,
     };
     let mut b = build_world(r, &cfg);
     let mut opts = Opts {
@@ -439,6 +440,7 @@ fn plain_cfg(nthreads: usize, nlibs: usize) -> WorldCfg {
         exe_name: "/usr/bin/app",
         alt_chain: false,
         names_at_end: false,
+        lib_gaps: false,
     }
 }
 
@@ -1624,8 +1626,12 @@ fn gen_c08(r: &mut Rng, seed: u64) -> Scenario {
     let mut cfg = plain_cfg(n, r.range(1, 12) as usize);
     cfg.lib_variety = true;
     cfg.nfds = 0;
+    cfg.lib_gaps = r.coin();
     let mut b = build_world(r, &cfg);
     let mut tags = vec![format!("libs{}", cfg.nlibs.min(4))];
+    if b.modules.iter().any(|m| m.image.data_vaddr > m.image.data_off) {
+        tags.push("reserved-gap".into());
+    }
     let mut opts = Opts { blamed: PID, ..Default::default() };
     // odd names / deleted files for some libraries
     let nmods = b.modules.len();
@@ -1663,9 +1669,19 @@ fn gen_c08(r: &mut Rng, seed: u64) -> Scenario {
             push_tags(&mut tags, &["deleted"]);
         }
     }
+    // the loader's reserved gap directly after a library (nothing of the file follows it)
+    for mi in 1..b.modules.len() {
+        if r.chance(1, 6) {
+            let end = b.modules[mi].base + b.modules[mi].image.mapped_len;
+            if !b.world.regions.iter().any(|g| g.start < end + 0x3000 && end < g.end()) {
+                b.world.regions.push(RegionSpec { start: end, len: r.range(1, 3) * 0x1000, perms: "---p".into(), offset: 0, inode: 0, name: B(Vec::new()), deleted: false, content: Content::Zero });
+                push_tags(&mut tags, &["trailing-reserved-gap"]);
+            }
+        }
+    }
     // a library whose section table is not mapped and whose note is only in a section
     if r.chance(1, 3) {
-        let spec = crate::elfgen::ElfSpec { build_id: Some(r.bytes(20)), note_in_phdr: false, soname: Some("libfileonly.so.2".into()), sections: true, text_pages: 1, text_seed: r.next(), dt_debug: false, dyn_pad: 0, with_pt_phdr: false, sections_at_end: true, rodata_before_text: false };
+        let spec = crate::elfgen::ElfSpec { build_id: Some(r.bytes(20)), note_in_phdr: false, soname: Some("libfileonly.so.2".into()), sections: true, text_pages: 1, text_seed: r.next(), dt_debug: false, dyn_pad: 0, with_pt_phdr: false, sections_at_end: true, rodata_before_text: false, data_gap_pages: 0 };
         let img = crate::elfgen::build(&spec);
         let base = LIB_BASE + 0x5000_0000;
         let path = "/usr/lib/libfileonly.so.2.0";
@@ -1682,7 +1698,7 @@ fn gen_c08(r: &mut Rng, seed: u64) -> Scenario {
     }
     // a library embedded in an archive: executable mapping from a non-zero file offset
     if r.chance(1, 3) {
-        let spec = crate::elfgen::ElfSpec { build_id: Some(r.bytes(20)), note_in_phdr: true, soname: Some("libembedded.so".into()), sections: r.coin(), text_pages: 1, text_seed: r.next(), dt_debug: false, dyn_pad: 0, with_pt_phdr: false, sections_at_end: false, rodata_before_text: false };
+        let spec = crate::elfgen::ElfSpec { build_id: Some(r.bytes(20)), note_in_phdr: true, soname: Some("libembedded.so".into()), sections: r.coin(), text_pages: 1, text_seed: r.next(), dt_debug: false, dyn_pad: 0, with_pt_phdr: false, sections_at_end: false, rodata_before_text: false, data_gap_pages: 0 };
         let img = crate::elfgen::build(&spec);
         let base = LIB_BASE + 0x6000_0000;
         let path = "/data/app/base.apk";
@@ -1705,7 +1721,7 @@ fn gen_c08(r: &mut Rng, seed: u64) -> Scenario {
         push_tags(&mut tags, &["non-elf"]);
     }
     if r.chance(1, 4) {
-        let spec = crate::elfgen::ElfSpec { build_id: Some(vec![0u8; 20]), note_in_phdr: true, soname: None, sections: true, text_pages: 1, text_seed: 5, dt_debug: false, dyn_pad: 0, with_pt_phdr: false, sections_at_end: false, rodata_before_text: false };
+        let spec = crate::elfgen::ElfSpec { build_id: Some(vec![0u8; 20]), note_in_phdr: true, soname: None, sections: true, text_pages: 1, text_seed: 5, dt_debug: false, dyn_pad: 0, with_pt_phdr: false, sections_at_end: false, rodata_before_text: false, data_gap_pages: 0 };
         let img = crate::elfgen::build(&spec);
         let base = LIB_BASE + 0x7000_0000;
         let path = "/usr/lib/libzeroid.so";
